@@ -45,11 +45,12 @@ class Models(Simd):
         R(r"core::ops::Deref(Mut)?>::deref(_mut)?$|core::convert::AsRef<.*>>::as_ref$|core::convert::AsMut<.*>>::as_mut$|core::borrow::Borrow(Mut)?<.*>>::borrow(_mut)?$", self.m_identity_ref)
         R(r"core::clone::Clone>::clone$", self.m_clone)
         R(r"core::convert::(Into|From)<.*>>::(into|from)$|impl core::convert::From<.*> for .*>::from$", self.m_convert)
-        R(r"core::convert::(TryInto|TryFrom)<.*>>::(try_into|try_from)$|core::array::<impl core::convert::TryFrom<.*>::try_from$", self.m_try_into)
+        R(r"core::convert::(TryInto|TryFrom)<.*>>::(try_into|try_from)$|core::array::<impl core::convert::TryFrom<.*>::try_from$|"
+          r"<impl core::convert::TryFrom<\w+> for (u|i)\w+>::try_from$", self.m_try_into)
         R(r"core::result::Result(::)?<.*>::(unwrap|expect)$|core::option::Option(::)?<.*>::(unwrap|expect)$", self.m_unwrap)
         R(r"core::ops::Try>::branch$", self.m_try_branch)
         R(r"core::option::Option(::)?<.*>::(map|ok_or|ok_or_else|and_then|is_some|is_none|unwrap_or|unwrap_or_default|copied|cloned|as_ref)(::<.*>)?$|"
-          r"core::result::Result(::)?<.*>::(map|map_err|ok|is_ok|is_err|and_then)(::<.*>)?$", self.m_enum_comb)
+          r"core::result::Result(::)?<.*>::(map|map_err|ok|is_ok|is_err|and_then|unwrap_or|unwrap_or_default)(::<.*>)?$", self.m_enum_comb)
         R(r"core::ops::FromResidual<.*>>::from_residual$", self.m_from_residual)
         R(r"core::hint::black_box", lambda ip, fv, st, d, t, n, a, dty: a[0])
         R(r"core::mem::swap", self.m_swap)
@@ -549,6 +550,10 @@ class Models(Simd):
                 if r is not NotImplemented:
                     return r
                 return ip.call_local(f, list(args), st, len(st.frames) - 1)
+            # a tuple-struct constructor used as a function (`.map(CompressedEdwardsY)`): build the struct
+            a = ip.F.adts.get(c[1]) or (ip.F.adt_of(c[1]) if hasattr(ip.F, "adt_of") else None)
+            if a and a.get("kind") == "Struct" and len(a["variants"][0]["fields"]) == len(args):
+                return ("st", tuple(ip.deconst(x) for x in args))
         return TOP
 
     def fnp_model(self, ip, st, c, f, args):
@@ -1056,6 +1061,17 @@ class Models(Simd):
             if ln[1] <= N <= ln[2]:
                 outs.append((0, (okv,)))
             if not (ln[1] == ln[2] == N):
+                outs.append((1, (TOP,)))
+            return ("en", tuple(outs))
+        # integer -> integer: Ok(value) when it fits the target type, Err when it cannot, both when it may
+        mi = re.search(r"Result<((?:u|i)(?:8|16|32|64|128|size)), ", dty)
+        x = ip.deconst(v) if v[0] != "ref" else ip.deconst(ip.deref_val(st, v))
+        if mi and x[0] == "i":
+            lo, hi = INT_TYPES[mi.group(1)]
+            outs = []
+            if x[2] >= lo and x[1] <= hi:
+                outs.append((0, (I(max(x[1], lo), min(x[2], hi)),)))
+            if x[1] < lo or x[2] > hi:
                 outs.append((1, (TOP,)))
             return ("en", tuple(outs))
         # any other conversion: a local impl is interpreted, an external one gets the most general value of its type (do_call)
